@@ -355,6 +355,42 @@ fn check_update_invariants(rep: &Report, s: &Setup, p: &Psbt, i: usize, pairname
     let _ = SigVer::Base;
 }
 
+/// A few fully populated states of a pair (used by C11 as mutation seeds).
+pub fn reachable_full_states(pair: &[D; 2]) -> (Vec<Psbt>, Vec<String>) {
+    let p2 = [relabel(&pair[0], 0), relabel(&pair[1], 1)];
+    let s = match setup(&p2) {
+        Some(s) => s,
+        None => return (vec![], vec![]),
+    };
+    let descs: Vec<String> = s.cases.iter().map(|c| c.desc.to_string()).collect();
+    let mut out = vec![s.psbt0.clone()];
+    let mut updated = s.psbt0.clone();
+    let mut full = s.psbt0.clone();
+    let mut sigs_only = s.psbt0.clone();
+    for a in &s.actions {
+        if a.is_finalize() {
+            continue;
+        }
+        if let Ok((q, _)) = apply(&s, &full, a) {
+            full = q;
+        }
+        if matches!(a, Act::Update(_)) {
+            if let Ok((q, _)) = apply(&s, &updated, a) {
+                updated = q;
+            }
+        } else if let Ok((q, _)) = apply(&s, &sigs_only, a) {
+            sigs_only = q;
+        }
+    }
+    out.push(updated);
+    out.push(sigs_only);
+    out.push(full.clone());
+    if let Ok((q, _)) = apply(&s, &full, &Act::FinalizeInp(0)) {
+        out.push(q);
+    }
+    (out, descs)
+}
+
 fn explore_pair(rep: &Report, name: &str, pair: &[D; 2], depth: usize) -> (Census, u64, u64) {
     let mut cen = Census::new();
     let s = match setup(pair) {
